@@ -114,7 +114,15 @@ class World:
         self.instances = []  # every process instance that went through init() (constructed or loaded)
         self.child_by_index = {}
 
+    MAX_EVENTS = 60000
+
     def rec(self, *event):
+        if len(self.events) >= self.MAX_EVENTS:
+            # a run that produces this many events is not coming to rest (e.g. a step repeated for ever inside ONE loop
+            # handle, which the handle counter of the loop cannot see)
+            from .loop import TickLimit
+
+            raise TickLimit(f'more than {self.MAX_EVENTS} recorded events in one run')
         self.events.append(event)
 
     def site(self, proc, site):
@@ -157,7 +165,18 @@ def _do_effect(proc, world, eff, plumpy):
                 world.callback_errors.append(exc)
                 raise exc
 
-        proc.call_soon(callback)
+        async def async_callback(ident=ident, fail=fail, proc=proc):
+            # a coroutine function as callback: probed before and after an await
+            world.rec('callback', label(proc), ident, plumpy.Process.current() is proc, proc.state.value)
+            await asyncio.sleep(0)
+            world.rec('callback', label(proc), f'{ident}+', plumpy.Process.current() is proc, proc.state.value)
+            world.site(proc, f'callback:{ident}')
+            if fail:
+                exc = CallbackError(f'callback {ident}')
+                world.callback_errors.append(exc)
+                raise exc
+
+        proc.call_soon(async_callback if eff.get('coro') else callback)
     elif kind == 'callsoon_parent':
         # a child schedules a callback on the process that started it (the callback is the PARENT's code)
         parent = world.parent_of.get(id(proc))
@@ -168,7 +187,14 @@ def _do_effect(proc, world, eff, plumpy):
                 world.rec('callback', label(parent), f'from-child:{ident}', plumpy.Process.current() is parent,
                           parent.state.value)
 
-            parent.call_soon(parent_callback)
+            async def parent_coro_callback(ident=ident, parent=parent):
+                world.rec('callback', label(parent), f'from-child:{ident}', plumpy.Process.current() is parent,
+                          parent.state.value)
+                await asyncio.sleep(0)
+                world.rec('callback', label(parent), f'from-child:{ident}+', plumpy.Process.current() is parent,
+                          parent.state.value)
+
+            parent.call_soon(parent_coro_callback if eff.get('coro') else parent_callback)
             world.rec('scheduled_on_parent', label(proc), label(parent))
     elif kind in ('launch', 'execute'):
         child_cls = proc.__class__._children[eff['child']]
@@ -224,6 +250,8 @@ def _make_ret(proc, world, ret, plumpy):
     if kind == 'continue':
         return plumpy.Continue(getattr(proc, step_name(ret['to'])), *ret.get('args', []), **ret.get('kwargs', {}))
     if kind == 'wait':
+        if ret.get('to') is None:
+            return plumpy.Wait(None, ret.get('msg'), ret.get('data'))  # a wait without continuation (can only be killed)
         return plumpy.Wait(getattr(proc, step_name(ret['to'])), ret.get('msg'), ret.get('data'))
     if kind == 'value':
         return ret['v']
@@ -365,6 +393,20 @@ def build_process_class(program, world, plumpy, hooks=True, record_calls=True):
         world.rec('init', label(self), self.state.value)
 
     namespace['init'] = init
+
+    if program.get('custom_waiting'):
+        # like downstream users (AiiDA), the process substitutes its own subclass of the WAITING state
+        from plumpy import process_states
+
+        waiting_cls = type('GenWaiting', (process_states.Waiting,), {})
+        generated.register(waiting_cls, f'GenWaiting{_class_serial[0] + 1}')
+
+        def get_state_classes(cls):
+            states = super(cls_ref[0], cls).get_state_classes()
+            states[process_states.ProcessState.WAITING] = waiting_cls
+            return states
+
+        namespace['get_state_classes'] = classmethod(get_state_classes)
 
     if record_calls:
         # public control methods are overridden only to *record* the calls actually made (including
@@ -513,6 +555,8 @@ def gen_process_program(rng, cfg=None):
                     cb_id += 1
                     fail = rng.random() < cfg.get('p_fail_callback', 0.0)
                     group.append({'e': 'callsoon', 'id': cb_id, 'fail': fail})
+                    if cfg.get('coro_callbacks') and rng.random() < 0.4:
+                        group[-1]['coro'] = True
                 elif kind == 'pause':
                     group.append({'e': 'pause', 'msg': rng.choice([None, 'self-pause'])})
                 elif kind == 'play':
@@ -545,7 +589,10 @@ def gen_process_program(rng, cfg=None):
             else:
                 ret = {'t': 'raise', 'msg': f'boom{index}'}
         steps.append({'async': is_async, 'awaits': awaits, 'effects': groups, 'ret': ret})
-    return {'kind': 'process', 'steps': steps, 'inputs': None}
+    program = {'kind': 'process', 'steps': steps, 'inputs': None}
+    if rng.random() < cfg.get('p_custom_waiting', 0.25):
+        program['custom_waiting'] = True
+    return program
 
 
 def canonical_programs():
